@@ -53,6 +53,11 @@ INF = math.inf
 BOUNDS = [(0.0, 1.0), (-2.0, 3.0), (2.0, 10.0), (1.5, 1.5), (0.0, 0.0), (-1e300, 1e300), (1.0, 1.0 + 2 ** -52),
           (-0.0, 0.0), (-5.0, -1.0), (0.1, 0.30000000000000004), (0.0, 1e-300), (-1.0, 1.0), (2.0, 20.0)]
 INVERTED = [(3.0, -2.0), (1.0, 0.0), (0.0, -0.0)]
+# red team round 5: boxes of integer-valued parameters (declared 'parameter_type': 'integer' / 'real' / not at all), whole-number bounds as
+# Python ints and as floats; ranges 3 mod 4 (half range k+0.5, k odd: 3.5, 1.5, 5.5, 7.5), 1 mod 4 (k even: 0.5, 2.5, 4.5), even ranges, width 0
+IBOUNDS = [(0, 7), (2, 5), (0, 3), (0.0, 7.0), (2.0, 5.0), (-3, 0), (1, 12), (0, 11), (-7, 8), (10, 13), (-2.0, 1.0),
+           (0, 1), (0, 5), (-4, 1), (0, 9), (3.0, 8.0), (0, 2), (0, 4), (0, 8), (12, 60), (-5, 5), (3, 3), (0.0, 6.0)]
+PTYPES = ["integer", "integer", "integer", "integer", "real", None]
 COST_SMALL = [0.0, 1.0, 2.0, 3.0]
 COST_GRID = [0.0, 1.0, 2.0, 3.0, 0.5, 1.5, -1.0, 2.5, 0.1, 0.2, 0.30000000000000004, 0.3, 1e-7, -0.0, 7.25, 1e6]
 MARKERS = [True, True, True, True, False, 0, 1, 2, -1]
@@ -118,7 +123,9 @@ def run(ctx):
              "pos_over_ub": 0, "pos_under_lb": 0, "pos_inside": 0, "pos_zero_width": 0, "pos_inverted_box": 0,
              "leaders_adds": 0, "leaders_rejected": 0, "leaders_truncations_cutting": 0, "leaders_tie_breaks": 0,
              "leaders_generations": 0, "in_situ_cases": 0, "histories": 0, "history_calls": 0, "box_changes_in_place": {}, "box_changes_by_kind": {},
-             "runs_repeated_on_one_object_after_a_box_change": 0, "sc_mono_pairs_checked": 0, "delta_nonneg_checked": 0, "by_algorithm": {a.__name__: 0 for a in ALGS}}
+             "runs_repeated_on_one_object_after_a_box_change": 0, "sc_mono_pairs_checked": 0, "delta_nonneg_checked": 0, "by_algorithm": {a.__name__: 0 for a in ALGS},
+             "typed": {"velocity_cases": 0, "position_cases": 0, "components": {}, "int_valued_vectors": 0, "type_changed_in_place_before_the_call": 0,
+                       "clamped_at_half_range_k_plus_half_k_odd": {}, "clamped_at_half_range_k_plus_half_k_even": {}}}
 
     # --------------------------------------------------------------------------------------------
     # harness-side observation: the swarm module's `uniform`, the archive module's `choice`/`sample`,
@@ -189,11 +196,14 @@ def run(ctx):
 
     arch.Archive.add, arch.Archive.truncate, ops.EpsilonDominance.compare = w_add, w_trunc, w_ecmp
 
-    def make_problem(bounds, nobj, fn):
+    def make_problem(bounds, nobj, fn, ptypes=None):
         class C18Problem(Problem):
             def set(self, **kw):
                 self.name = "c18"
                 self.parameters = [{"name": "x%d" % i, "bounds": [lb, ub]} for i, (lb, ub) in enumerate(bounds)]
+                for q, t in zip(self.parameters, ptypes or []):
+                    if t is not None:
+                        q["parameter_type"] = t
                 self.costs = [{"name": "f%d" % i, "criteria": "minimize"} for i in range(nobj)]
 
             def evaluate(self, individual):
@@ -271,6 +281,10 @@ def run(ctx):
         object was built); never the algorithm's own idea of it"""
         return [tuple(p["bounds"]) for p in alg.problem.parameters]
 
+    def ptypes_of(alg):
+        """the declared parameter types NOW (None = not declared); update_velocity / update_position of the unchanged code never read them"""
+        return [p.get("parameter_type") for p in alg.problem.parameters]
+
     def history_of(alg):
         h = getattr(alg, "_c18_history", None)
         return None if h is None else list(h)
@@ -321,7 +335,7 @@ def run(ctx):
             mswarm.append({"vector": x, "best_vector": b, "leader_vector": r["leader"], "r1": r1, "r2": r2, "c1": c1, "c2": c2,
                            "khi": khi_v, "inertia_draws": u[4:]})
         meta = {"kind": "update_velocity", "origin": origin, "algorithm": type(alg).__name__, "bounds": [list(b) for b in bounds],
-                "particles": mswarm, "velocity_after": post, "history_of_this_algorithm_object": history_of(alg)}
+                "parameter_types": ptypes_of(alg), "particles": mswarm, "velocity_after": post, "history_of_this_algorithm_object": history_of(alg)}
         if not ok:
             ctx.mismatches.append({"what": "update_velocity no longer draws select_leader / 4 uniforms / khi per particle as modelled",
                                    "correspondence": "c18_vel", "case": meta})
@@ -348,6 +362,10 @@ def run(ctx):
                     fail("update_velocity: velocity component %d of particle %d is %r, outside +-(ub-lb)/2 = +-%r" % (i, pi, vi, delta),
                          meta, {"kind": "velocity_clamp", "algorithm": type(alg).__name__})
                     break
+                if abs(vi) == delta and delta % 1.0 == 0.5:
+                    t = alg.problem.parameters[i].get("parameter_type") or "undeclared"
+                    k = "clamped_at_half_range_k_plus_half_k_%s" % ("odd" if delta % 2.0 == 1.5 else "even")
+                    stats["typed"][k][t] = stats["typed"][k].get(t, 0) + 1
                 if vi == delta and delta > 0:
                     stats["vel_clamped_hi"] += 1
                     interesting = True
@@ -373,6 +391,7 @@ def run(ctx):
             bl(damp), enc_params(bounds), ll([pl(enc_fl(x), enc_fl(v)) for x, v in pre])))
         PS["exp"].append("(Some %s)" % ll([pl(enc_fl(x), enc_fl(v)) for x, v in post]))
         meta = {"kind": "update_position", "origin": origin, "algorithm": type(alg).__name__, "bounds": [list(b) for b in bounds],
+                "parameter_types": ptypes_of(alg),
                 "before": [{"vector": x, "velocity": v} for x, v in pre], "after": [{"vector": x, "velocity": v} for x, v in post],
                 "history_of_this_algorithm_object": history_of(alg)}
         PS["meta"].append(meta)
@@ -572,8 +591,8 @@ def run(ctx):
     def gen_costs(m, grid, marker=None):
         return [rng.choice(grid) for _ in range(m)] + [rng.choice(MARKERS) if marker is None else marker]
 
-    def new_alg(cls, bounds, nobj=2, fn=None):
-        return cls(make_problem(bounds, nobj, fn or (lambda ind: [0.0] * nobj)))
+    def new_alg(cls, bounds, nobj=2, fn=None, ptypes=None):
+        return cls(make_problem(bounds, nobj, fn or (lambda ind: [0.0] * nobj), ptypes))
 
     def new_particle(cls, vec):
         return sw.IndividualSwarm(list(vec)) if cls is not sw.SMPSO or rng.random() < 0.5 else Individual(list(vec))
@@ -639,6 +658,87 @@ def run(ctx):
             p.features["velocity"] = [gen_velocity(*bounds[i], p.vector[i]) for i in range(n)]
             pop.append(p)
         observe_velocity(alg, pop, "generated")
+
+    # ---------- red team round 5: typed parameters ------------------------------------------------
+    # Boxes of parameters declared 'parameter_type': 'integer' / 'real' / undeclared with whole-number bounds (ints or floats), half
+    # ranges k+0.5 (k odd and even) and whole, particles far outside the box so that the clamp is hit, vectors / bests / leaders of
+    # Python ints (what artap's generators produce for integer parameters) or floats, the declared type changed IN PLACE between
+    # construction and the call.  The unchanged update_velocity / update_position never read 'parameter_type' and compute in floats
+    # whatever the vectors hold: the model (on float(x)) and the oracle clause (|v| <= (ub-lb)/2) stay as they are.
+    def typed_box(n):
+        bounds, types = [], []
+        for _ in range(n):
+            if rng.random() < 0.8:
+                bounds.append(rng.choice(IBOUNDS[:11]) if rng.random() < 0.6 else rng.choice(IBOUNDS))
+                types.append(rng.choice(PTYPES))
+            else:
+                bounds.append(gen_bounds(1, False)[0])
+                types.append(rng.choice(["real", None, None, "integer"]))
+        return bounds, types
+
+    def typed_coord(lb, ub, as_int):
+        r = rng.random()
+        if r < 0.5:                                  # far outside: the social / cognitive terms exceed the half range
+            x = rng.choice([lb - 1, ub + 1]) + rng.choice([-1, 1]) * rng.choice([10, 100, 1000, 10 ** 6])
+        elif r < 0.7:
+            x = rng.choice([lb, ub])
+        else:
+            x = gen_coord(lb, ub)
+        if as_int and math.isfinite(x) and abs(x) < 1e15:
+            return int(round(x))
+        return float(x)
+
+    def typed_swarm(cls, alg, bounds, types, n, velocity_only):
+        as_int = [t == "integer" and rng.random() < 0.6 for t in types]
+        k = rng.choice([1, 2, 3])
+        for j in range(k):
+            g = sw.IndividualSwarm([typed_coord(*bounds[i], as_int[i]) for i in range(n)])
+            g.costs_signed = [float(j), float(k - j), True]
+            g.features["crowding_distance"] = rng.choice(CROWD)
+            alg.leaders.add(g)
+        pop = []
+        for _ in range(rng.choice([1, 2, 3, 4])):
+            p = new_particle(cls, [typed_coord(*bounds[i], as_int[i]) for i in range(n)])
+            r = rng.random()
+            p.features["best_vector"] = p.vector if r < 0.2 else list(p.vector) if r < 0.3 else [typed_coord(*bounds[i], as_int[i]) for i in range(n)]
+            p.features["velocity"] = [float(gen_velocity(*bounds[i], p.vector[i])) if rng.random() < 0.7 else rng.choice([0.0, 1.0, -1.0, 2.0, -3.0])
+                                      for i in range(n)]       # floats, as update_velocity leaves them (an int 0 reversed by `*= -1` stays +0)
+            pop.append(p)
+        stats["typed"]["int_valued_vectors"] += sum(any(type(x) is int for x in p.vector) for p in pop)
+        for t in types:
+            stats["typed"]["components"][t or "undeclared"] = stats["typed"]["components"].get(t or "undeclared", 0) + 1
+        return pop
+
+    def retype_in_place(alg, types):
+        """rule 9: the declared type changes between construction and the call (assigned, removed, or the dict replaced)"""
+        for i, q in enumerate(alg.problem.parameters):
+            r = rng.random()
+            if r < 0.4:
+                q["parameter_type"] = "integer"
+            elif r < 0.55:
+                q.pop("parameter_type", None)
+            elif r < 0.7:
+                alg.problem.parameters[i] = dict(q, parameter_type=rng.choice(["integer", "real"]))
+        stats["typed"]["type_changed_in_place_before_the_call"] += 1
+
+    def gen_typed_case(what):
+        cls = rng.choice(ALGS)
+        n = rng.choice([1, 2, 3, 4])
+        bounds, types = typed_box(n)
+        alg = new_alg(cls, bounds, ptypes=types)
+        pop = typed_swarm(cls, alg, bounds, types, n, what == "vel")
+        if rng.random() < 0.3:
+            retype_in_place(alg, types)
+        if what == "vel":
+            stats["typed"]["velocity_cases"] += 1
+            observe_velocity(alg, pop, "generated, typed parameters")
+            if rng.random() < 0.3:                  # the same long-lived object again: position update, type change, velocity update
+                observe_position(alg, pop, "generated, typed parameters")
+                retype_in_place(alg, types)
+                observe_velocity(alg, pop, "generated, typed parameters")
+        else:
+            stats["typed"]["position_cases"] += 1
+            observe_position(alg, pop, "generated, typed parameters")
 
     # ---------- generated: update_position -------------------------------------------------------
     def gen_position_case(degenerate):
@@ -864,6 +964,25 @@ def run(ctx):
                     q.features["best_vector"] = list(vec)
                     pop.append(q)
                 observe_position(alg, pop, "corpus")
+            # red team round 5: integer-typed parameters, half ranges 3.5 / 1.5 / 1.5 / 24 / (undeclared) 3.5 / 0.5 / 2.5, particles far
+            # outside on both sides (every component hits the clamp), int and float vectors
+            for ib, it in [([(0, 7), (2, 5), (0, 3), (12, 60), (0.0, 7.0)], ["integer", "integer", "integer", "integer", None]),
+                           ([(0.0, 7.0), (2.0, 5.0), (0, 1), (0, 5), (0, 7)], ["integer", "integer", "integer", "integer", "real"])]:
+                alg = new_alg(cls, ib, ptypes=it)
+                for j, gv in enumerate([[b[1] for b in ib], [b[0] for b in ib]]):
+                    g = sw.IndividualSwarm(list(gv))
+                    g.costs_signed = [float(j), float(1 - j), True]
+                    g.features["crowding_distance"] = INF
+                    alg.leaders.add(g)
+                pop = []
+                for vec in ([1000] * 5, [-1000] * 5, [1e6, -1e6, 1e6, -1e6, 1e6], [3, 3, 1, 30, 3.5], [-50, 50, -50, 50, -50.5]):
+                    q = sw.IndividualSwarm(list(vec))
+                    q.features["velocity"] = [0] * 5
+                    q.features["best_vector"] = [b[0] for b in ib] if vec[0] > 0 else [b[1] for b in ib]
+                    pop.append(q)
+                observe_velocity(alg, pop, "corpus")
+                observe_position(alg, pop, "corpus")
+                observe_velocity(alg, pop, "corpus")
             # update_particle_best: identical, dominating, dominated, incomparable, marker decides, shared dict chain
             for parts, shared in [
                 ([([1.0, 2.0, True], [1.0, 2.0, True])], False),
@@ -935,6 +1054,8 @@ def run(ctx):
                               "mode": ["rebind", "item", "dict"][(k // 2) % 3]})
         for _ in range(ctx.pick(150, 1500)):
             gen_history_case()
+        for i in range(ctx.pick(240, 2400)):
+            gen_typed_case("pos" if i % 4 == 3 else "vel")
     finally:
         (sw.uniform, arch.choice, arch.sample, ops.math, ops.EpsilonDominance.compare,
          arch.Archive.add, arch.Archive.truncate) = saved
@@ -950,7 +1071,7 @@ def run(ctx):
                 "whole run); non-trivial = some best is kept or moved / some component is clamped / some coordinate leaves the box / "
                 "some candidate is rejected or the archive is cut; distinct = distinct encoded case")
     ctx.extra.update({"input_distribution": stats,
-                      "bounds_templates": [list(b) for b in BOUNDS], "inverted_boxes_in_degenerate_stream": [list(b) for b in INVERTED]})
+                      "bounds_templates": [list(b) for b in BOUNDS], "typed_parameter_bounds_templates": [list(b) for b in IBOUNDS], "inverted_boxes_in_degenerate_stream": [list(b) for b in INVERTED]})
 
 
 LEVEL_TEXT = ("Machine-checked Coq theorems over an executable model of update_particle_best, speed_constriction / update_velocity "
